@@ -94,15 +94,24 @@ def check_case(case) -> Verdict:
     cls = f"{fam} {ubin} {setting}"
     v.label(f"family:{fam}", f"ubin:{ubin}", f"setting:{setting}")
     A = _run(spec1, cfg)
+    if A.get("timeout"):
+        v.discarded("timeout (inconclusive)")
+        return v
     if "setup_error" in A:
         v.discarded("s=1 setup failed")
         return v
     B = _run(specs, cfg)
     v.checked("setup")
+    if B.get("timeout") or A.get("timeout"):
+        v.discarded("timeout (inconclusive)")
+        return v
     if "setup_error" in B:
         v.fail("setup", cls, f"set-up succeeds in units s=1 but fails for s={s:g}: {B['setup_error'][:200]}")
         return v
     C = _run(spec1, cfg_o)
+    if C.get("timeout"):
+        v.discarded("timeout (inconclusive)")
+        return v
     if "setup_error" in C:
         v.discarded("s=1 other-setting setup failed")
         return v
